@@ -418,9 +418,9 @@ var kinds = []string{"ctx", "errch", "cancelch"}
 // exercised by exactly one corpus scenario.
 func gen(rng *rand.Rand, tier string) []string {
 	steps := 12 + rng.Intn(18)
-	maxP, maxA, maxCA := 3, 5, 3
+	maxP, maxA, maxCA := 3, 5, 2
 	if tier == "thorough" {
-		steps, maxP, maxA, maxCA = 20+rng.Intn(40), 4, 8, 4
+		steps, maxP, maxA, maxCA = 20+rng.Intn(40), 4, 8, 3
 	}
 	nca := 0
 	var out []string
